@@ -191,7 +191,6 @@ var auditChains = [][2]string{
 // auditChain writes one stream with the given dictionary chain and filters
 // argument.  prop selects which property's oracle is evaluated.
 func auditChain(prop string, version pdf.Version, dictChain, argChain string) (key, desc, op, impl string) {
-	op = fmt.Sprintf("SEC chain %s %s", dictChain, argChain)
 	defer func() {
 		if p := recover(); p != nil {
 			key, desc = prop+"-crypt-chain-panic", fmt.Sprintf("panic: %v", p)
@@ -201,6 +200,9 @@ func auditChain(prop string, version pdf.Version, dictChain, argChain string) (k
 	if err != nil {
 		return "", "NewWriter: " + err.Error(), "", ""
 	}
+	// crypt filters exist if the encryption dictionary has /V 4 or 5
+	encV, _ := w.GetMeta().Trailer["Encrypt"].(pdf.Dict)["V"].(pdf.Integer)
+	op = fmt.Sprintf("SEC chain %s %s %d", dictChain, argChain, secB2i(encV >= 4))
 	needle := []byte("NEEDLE-CHAIN-" + dictChain + "-" + argChain + "-0123456789")
 	data := needle
 	if strings.Contains(dictChain, "F") {
@@ -231,18 +233,20 @@ func auditChain(prop string, version pdf.Version, dictChain, argChain string) (k
 	impl = fmt.Sprintf("ok %s skip=%d", m, secB2i(visible))
 	cause := ""
 	switch {
+	case encV < 4 && strings.HasPrefix(merged, "I"):
+		cause = "crypt-filter-without-crypt-filters"
 	case len(merged) > 1 && strings.ContainsAny(merged[1:], "IS"):
 		cause = "crypt-filter-not-first"
 	case strings.HasPrefix(merged, "S"):
 		cause = "crypt-nonidentity-in-dict"
 	}
 	if prop == "C10" {
-		if visible && !strings.HasPrefix(merged, "I") {
+		if visible && (!strings.HasPrefix(merged, "I") || encV < 4) {
 			k := "C10-stream-plaintext-visible"
 			if cause != "" {
 				k = "C10-" + cause + "-plaintext"
 			}
-			return k, fmt.Sprintf("version %s, stream dictionary chain %q + filters argument %q: accepted, and the stream body is stored in the clear although the written chain %q does not start with /Crypt /Identity", verName(version), dictChain, argChain, merged), op, impl
+			return k, fmt.Sprintf("version %s, stream dictionary chain %q + filters argument %q: accepted, and the stream body is stored in the clear although the written chain %q does not start with /Crypt /Identity in a file with crypt filters (/V %d)", verName(version), dictChain, argChain, merged, encV), op, impl
 		}
 		return "", "no leak", op, impl
 	}
@@ -271,7 +275,7 @@ func auditChain(prop string, version pdf.Version, dictChain, argChain string) (k
 }
 
 func runSecAudit(c *Ctx, prop string) {
-	versions := []pdf.Version{pdf.V1_5, pdf.V1_7, pdf.V2_0}
+	versions := []pdf.Version{pdf.V1_4, pdf.V1_5, pdf.V1_7, pdf.V2_0}
 	for _, v := range versions {
 		for _, ch := range auditChains {
 			key, desc, op, impl := auditChain(prop, v, ch[0], ch[1])
@@ -286,6 +290,28 @@ func runSecAudit(c *Ctx, prop string) {
 			}
 			if key != "" {
 				c.Violate("audit", key, desc, fmt.Sprintf("chain %s %d %s %s", prop, int(v), ch[0], ch[1]))
+			}
+		}
+	}
+	for _, v := range []pdf.Version{pdf.V1_4, pdf.V1_7, pdf.V2_0} {
+		for _, mode := range []string{"seekable,set-after", "seekable,set-before", "plain,set-before", "plain,set-after"} {
+			key, desc := auditPlaceholder(prop, v, mode)
+			c.Case(fmt.Sprintf("placeholder %s %s", verName(v), mode), true)
+			c.Stat("audit-placeholder")
+			if key != "" {
+				c.Violate("audit", key, desc, fmt.Sprintf("placeholder %s %d %s", prop, int(v), mode))
+			}
+		}
+		for _, variant := range []string{"unchanged", "replace-trailer", "delete-encrypt", "edit-P", "plain-writer-with-encrypt"} {
+			key, desc, refused := auditTrailer(prop, v, variant)
+			c.Case(fmt.Sprintf("trailer %s %s", verName(v), variant), true)
+			if refused {
+				c.Stat("audit-trailer-close-refused")
+			} else {
+				c.Stat("audit-trailer-written")
+			}
+			if key != "" {
+				c.Violate("audit", key, desc, fmt.Sprintf("trailer %s %d %s", prop, int(v), variant))
 			}
 		}
 	}
@@ -332,6 +358,153 @@ func runSecAudit(c *Ctx, prop string) {
 	}
 }
 
+// ---- strings delivered through a Placeholder ----
+
+func auditPlaceholder(prop string, version pdf.Version, mode string) (key, desc string) {
+	defer func() {
+		if p := recover(); p != nil {
+			key, desc = prop+"-placeholder-panic", fmt.Sprintf("panic: %v", p)
+		}
+	}()
+	seekable := strings.HasPrefix(mode, "seekable")
+	setBefore := strings.HasSuffix(mode, "set-before")
+	var out secOutput = &memWriter{}
+	if seekable {
+		out = &memSeekWriter{}
+	}
+	w, err := pdf.NewWriter(out, version, &pdf.WriterOptions{UserPassword: "user", OwnerPassword: "owner", HumanReadable: true})
+	if err != nil {
+		return "", "NewWriter: " + err.Error()
+	}
+	pages := w.Alloc()
+	w.GetMeta().Catalog.Pages = pages
+	if err := w.Put(pages, pdf.Dict{"Type": pdf.Name("Pages"), "Kids": pdf.Array{}, "Count": pdf.Integer(0)}); err != nil {
+		return "", err.Error()
+	}
+	secret := []byte("NEEDLE-PLACEHOLDER-" + mode)
+	ph := pdf.NewPlaceholder(w, 120)
+	ref := w.Alloc()
+	if setBefore {
+		if err := ph.Set(pdf.String(secret)); err != nil {
+			return "", "Set refused: " + err.Error()
+		}
+	}
+	if err := w.Put(ref, pdf.Dict{"Title": ph, "Other": pdf.String("NEEDLE-OTHER-STRING")}); err != nil {
+		return "", "Put refused: " + err.Error()
+	}
+	if !setBefore {
+		if err := ph.Set(pdf.String(secret)); err != nil {
+			return "", "Set refused: " + err.Error()
+		}
+	}
+	if err := w.Close(); err != nil {
+		return "", "Close refused: " + err.Error()
+	}
+	data := out.Bytes()
+	if prop == "C10" {
+		for _, nd := range [][]byte{secret, []byte("NEEDLE-OTHER-STRING")} {
+			if bytes.Contains(data, nd) || bytes.Contains(bytes.ToLower(data), []byte(hex.EncodeToString(nd))) {
+				return "C10-placeholder-string-plaintext", fmt.Sprintf("version %s, %s: the string %q delivered through Placeholder.Set is visible in the encrypted file", verName(version), mode, nd)
+			}
+		}
+		return "", "not visible"
+	}
+	for _, pw := range []string{"user", "owner"} {
+		rd, err := auditOpen(data, pw)
+		if err != nil {
+			return "C09-correct-password-rejected", fmt.Sprintf("placeholder %s: %v", mode, err)
+		}
+		obj, err := pdf.Resolve(rd, ref)
+		dict, _ := obj.(pdf.Dict)
+		got, err2 := pdf.Resolve(rd, dict["Title"])
+		rd.Close()
+		gs, _ := got.(pdf.String)
+		if err != nil || err2 != nil || !bytes.Equal(gs, secret) {
+			return "C09-placeholder-string-not-recovered", fmt.Sprintf("version %s, %s: a string set through a Placeholder does not read back with the %s password: %v %v, got %q", verName(version), mode, pw, err, err2, gs)
+		}
+	}
+	return "", "reads back"
+}
+
+// ---- the /Encrypt entry of the trailer between NewWriter and Close ----
+
+func auditTrailer(prop string, version pdf.Version, variant string) (key, desc string, refused bool) {
+	defer func() {
+		if p := recover(); p != nil {
+			key, desc = prop+"-trailer-panic", fmt.Sprintf("panic: %v", p)
+		}
+	}()
+	w, out, ref, err := auditWriter(version, nil)
+	if err != nil {
+		return "", "NewWriter: " + err.Error(), true
+	}
+	secret := []byte("NEEDLE-TRAILER-" + variant)
+	obj := pdf.Dict{"S": pdf.String(secret)}
+	password := true
+	switch variant {
+	case "replace-trailer": // e.g. to add private entries
+		w.GetMeta().Trailer = pdf.Dict{"Private": pdf.Integer(1)}
+	case "delete-encrypt":
+		delete(w.GetMeta().Trailer, "Encrypt")
+	case "edit-P":
+		if ed, ok := w.GetMeta().Trailer["Encrypt"].(pdf.Dict); ok {
+			ed["P"] = pdf.Integer(-1)
+		}
+	case "plain-writer-with-encrypt":
+		// the trailer entries of an encrypted source carried over to a writer without password
+		encDict := w.GetMeta().Trailer["Encrypt"]
+		out = &memWriter{}
+		w, err = pdf.NewWriter(out, version, &pdf.WriterOptions{ID: [][]byte{[]byte("0123456789abcdef"), []byte("0123456789abcdef")}})
+		if err != nil {
+			return "", "NewWriter: " + err.Error(), true
+		}
+		pages := w.Alloc()
+		w.GetMeta().Catalog.Pages = pages
+		if err := w.Put(pages, pdf.Dict{"Type": pdf.Name("Pages"), "Kids": pdf.Array{}, "Count": pdf.Integer(0)}); err != nil {
+			return "", err.Error(), true
+		}
+		ref = w.Alloc()
+		w.GetMeta().Trailer["Encrypt"] = encDict
+		password = false
+	}
+	if err := w.Put(ref, obj); err != nil {
+		return "", "Put: " + err.Error(), true
+	}
+	if err := w.Close(); err != nil {
+		return "", "Close refused: " + err.Error(), true
+	}
+	data := out.Bytes()
+	if prop == "C10" {
+		visible := bytes.Contains(data, secret)
+		declares := bytes.Contains(data, []byte("/Encrypt"))
+		switch {
+		case password && !declares:
+			return "C10-encrypt-entry-missing", fmt.Sprintf("version %s, %s: the file was written with passwords (strings and streams are encrypted) but its trailer has no /Encrypt entry", verName(version), variant), false
+		case password && visible:
+			return "C10-plaintext-visible", fmt.Sprintf("version %s, %s: plaintext visible", verName(version), variant), false
+		case !password && declares:
+			return "C10-encrypt-entry-in-unencrypted-file", fmt.Sprintf("version %s, %s: the file was written without password (everything in the clear) but its trailer declares /Encrypt", verName(version), variant), false
+		}
+		return "", "consistent", false
+	}
+	pws := []string{"user", "owner"}
+	if !password {
+		pws = []string{""}
+	}
+	for _, pw := range pws {
+		rd, err := auditOpen(data, pw)
+		if err != nil {
+			return "C09-encrypt-entry-changed-after-newwriter", fmt.Sprintf("version %s, trailer %s before Close: Close succeeds but the file does not open (password %q): %v", verName(version), variant, pw, err), false
+		}
+		got, err := rd.Get(ref, true)
+		rd.Close()
+		if err != nil || wireNorm(got) != wireNorm(obj) {
+			return "C09-encrypt-entry-changed-after-newwriter", fmt.Sprintf("version %s, trailer %s before Close: Close succeeds but the content is not returned as written (password %q): %v, got %s", verName(version), variant, pw, err, wireNorm(got)), false
+		}
+	}
+	return "", "opens", false
+}
+
 func replaySecAudit(input string) (bool, string) {
 	f := strings.Fields(input)
 	if len(f) == 0 {
@@ -345,6 +518,20 @@ func replaySecAudit(input string) (bool, string) {
 		}
 		fmt.Sscan(f[2], &v)
 		key, desc, _, _ := auditChain(f[1], pdf.Version(v), f[3], f[4])
+		return key == "", desc
+	case "placeholder":
+		if len(f) != 4 {
+			return true, "bad replay input"
+		}
+		fmt.Sscan(f[2], &v)
+		key, desc := auditPlaceholder(f[1], pdf.Version(v), f[3])
+		return key == "", desc
+	case "trailer":
+		if len(f) != 4 {
+			return true, "bad replay input"
+		}
+		fmt.Sscan(f[2], &v)
+		key, desc, _ := auditTrailer(f[1], pdf.Version(v), f[3])
 		return key == "", desc
 	case "id":
 		if len(f) != 3 {
